@@ -72,6 +72,10 @@ class CallMixin:
       return VFn(f'list.{name}', impl=lambda it, a, k, _v=v, _n=name: it.list_method(_v, _n, a, k))
     if isinstance(v, (VDict, VMap)):
       return VFn(f'dict.{name}', impl=lambda it, a, k, _v=v, _n=name: it.dict_method(_v, _n, a, k))
+    if isinstance(v, VVec):
+      if name == 'size':
+        return VInt(len(v.items))
+      raise Unsupported(f'vector attribute {name}')
     if isinstance(v, VQueue):
       if name == 'content':       # ghost view (spec only)
         return v.q.seq
@@ -257,6 +261,8 @@ class CallMixin:
       elif isinstance(v, VMList):
         s = v.seq
         v.seq = VSeq(z3.Store(s.arr, s.n, self.unwrap(s.kind, a[0])), s.n + 1, s.kind)
+        if getattr(v, 'cat', None) is not None:
+          v.cat = self.cat_append(v.cat, a[0])
       else:
         raise Unsupported('append on immutable')
       return NONE
@@ -497,6 +503,8 @@ class CallMixin:
         if not it.resumable:
           it.dead = z3.BoolVal(True)
         self.raise_(it.err, VStr('element failed'))
+      if it.wrap_fn is not None:
+        return it.wrap_fn(p)
       return self.wrap(it.src.kind, z3.Select(it.src.arr, p))
     if isinstance(it, VObj):
       mod, cls, m = self.world.method(it.cls, '__next__')
